@@ -41,9 +41,46 @@ def reference_closures():
         return out
 
 
-def closure_signature(raw):
-    """What a closure is, independent of its number: parameters, captured variables and the functions it calls."""
-    return [raw.get("arg_count"), len(raw.get("upvars") or []), sorted(c for c in _callees_list(raw))]
+def closure_signature(raw, raws=None):
+    """What a closure is, independent of its number (and of how precisely it captures): its parameters, the function it is handed
+    to, and the functions it calls."""
+    return [raw.get("arg_count"), _consumer(raw, raws), sorted(c for c in _callees_list(raw))]
+
+
+def _consumer(raw, raws):
+    """name of the call the closure value is passed to in the body that creates it (`call` when it is called by name)"""
+    if raws is None:
+        return "?"
+    parent = raws.get(raw["path"].rsplit("::{closure#", 1)[0])
+    if parent is None:
+        return "-"
+    holders = set()
+    for blk in parent["blocks"]:
+        for s in blk["s"]:
+            r = s.get("r") or {}
+            if r.get("k") == "agg" and r.get("ak") == "closure" and r.get("path") == raw["path"] and not s["p"]["pr"]:
+                holders.add(s["p"]["l"])
+    for _round in range(3):
+        for blk in parent["blocks"]:
+            for s in blk["s"]:
+                r = s.get("r") or {}
+                src = None
+                if r.get("k") == "use":
+                    src = r["o"].get("m") or r["o"].get("c")
+                elif r.get("k") == "ref":
+                    src = r.get("p")
+                if src is not None and not src["pr"] and src["l"] in holders and not s["p"]["pr"]:
+                    holders.add(s["p"]["l"])
+    for blk in parent["blocks"]:
+        t = blk["t"]
+        if t["k"] != "call":
+            continue
+        for a in t["args"]:
+            p = a.get("m") or a.get("c")
+            if p is not None and not p["pr"] and p["l"] in holders:
+                n = t.get("res") or t.get("decl") or "?"
+                return "call" if n == raw["path"] else n
+    return "-"
 
 
 def _callees_list(raw):
@@ -58,7 +95,9 @@ def _callees_list(raw):
 
 
 def new_closures(raws):
-    """Paths of the closures no closure of the reference tree (same enclosing function, same signature) accounts for."""
+    """Paths of the closures no closure of the reference tree accounts for.  A closure is accounted for by a reference closure of the
+    same enclosing function with the same parameters that is handed to the same function - first those that also call the same
+    functions, then (a closure whose body was rewritten) the remaining ones."""
     ref = reference_closures()
     if not ref:
         return None
@@ -69,12 +108,17 @@ def new_closures(raws):
     new = set()
     for parent, paths in by_parent.items():
         pool = list(ref.get(parent, []))
-        if len(paths) <= len(pool):
-            continue            # as many closures as on the reference tree (or fewer): none was added
+        left = []
         for path in paths:
-            sig = closure_signature(raws[path])
+            sig = closure_signature(raws[path], raws)
             if sig in pool:
                 pool.remove(sig)
+            else:
+                left.append((path, sig))
+        for path, sig in left:
+            loose = [x for x in pool if x[:2] == sig[:2]]
+            if loose:
+                pool.remove(loose[0])
             else:
                 new.add(path)
     return new
@@ -327,6 +371,22 @@ def desugar_combinators(raws, reference):
             if t["k"] != "call" or t.get("target") is None:
                 continue
             name = t.get("res") or t.get("decl") or ""
+            # a new local closure called by name (`let in_range = |p| ..; in_range(a) || in_range(b)`): a direct call of its body,
+            # the argument tuple of the "rust-call" convention spread out
+            if name in fresh and (t.get("decl") or "").endswith(("ops::Fn::call", "ops::FnMut::call_mut", "ops::FnOnce::call_once")) \
+                    and len(t["args"]) == 2 and raws[name]["kind"] == "Closure":
+                tp = t["args"][1].get("m") or t["args"][1].get("c")
+                ep = t["args"][0].get("m") or t["args"][0].get("c")
+                td = _single_def(raw, tp["l"]) if tp is not None and not tp["pr"] else None
+                cl = raws[name]
+                if td is not None and td.get("r", {}).get("k") == "agg" and td["r"].get("ak") == "tuple" and ep is not None and not ep["pr"] \
+                        and len(td["r"]["ops"]) == cl["arg_count"] - 1 \
+                        and cl["locals"][1]["ty"].startswith("&") == raw["locals"][ep["l"]]["ty"].startswith("&"):
+                    t["args"] = [t["args"][0]] + list(td["r"]["ops"])
+                    t["decl"] = name
+                    direct.add(name)
+                    raw.setdefault("desugared", []).append(["call", name])
+                continue
             spec = None
             for suf, sp in _COMBINATORS.items():
                 if name.endswith(suf) and name[:-len(suf)] in ("std::", "core::"):
